@@ -58,11 +58,14 @@ def main():
             "enable": "go build -tags verif (the harness module replaces diagonal.works/b6 with /repo/src/diagonal.works/b6)",
             "baseline_off_cmd": "for m in $(cat /w/out/gomods.txt); do MF=$(cd /repo/$m && . /w/out/goenv.sh && gomodflag); (cd /repo/$m && go test $MF -json -vet=off -count=1 -timeout 25m ./...); done",
             "source_commits": hooks_commits,
-            "add_only": True,
+            "add_only": False,
         },
         "engines": list(engines.values()),
         "checks": checks,
-        "notes": "Every check: TLA+ spec in spec/, model-checked by TLC (or Apalache), bound to the code by replaying "
+        "notes": "Hooks: three commits; all new files carry //go:build verif (or !verif for the no-op twin). One hook "
+                 "rewrites a line: in api/functions/change.go `return change.Apply(c.Worlds.FindOrCreateWorld(id))` is split "
+                 "into two statements so that a gate point can sit between them (hence add_only=false); everything else only adds. "
+                 "Every check: TLA+ spec in spec/, model-checked by TLC (or Apalache), bound to the code by replaying "
                  "TLC-exported transitions/cases on the real packages and/or validating recorded traces. "
                  "Known findings: KNOWN_FINDINGS.jsonl. Design: DESIGN.md.",
         "not_applicable": na,
